@@ -251,3 +251,63 @@ def ring_cells(ring, H, W):
         if xe > 0 and y1 > y0:
             par[y0:y1, :xe] ^= True
     return par
+
+
+# --------------------------------------------------------------------------
+# the same ring predicates on plain Python point lists (pts = ring.tolist()); much faster than
+# NumPy for the 5-50 point rings of small rasters.  Cross-checked against the NumPy versions and
+# against point_in_ring by the C15 "fixtures" shard.
+
+
+def pts_closed(pts):
+    return pts[0][0] == pts[-1][0] and pts[0][1] == pts[-1][1]
+
+
+def pts_on_corners(pts, H, W):
+    for x, y in pts:
+        if not (x == x and y == y and 0 <= x <= W and 0 <= y <= H and x == int(x) and y == int(y)):
+            return False
+    return True
+
+
+def pts_axis_parallel(pts):
+    for k in range(len(pts) - 1):
+        if (pts[k][0] != pts[k + 1][0]) == (pts[k][1] != pts[k + 1][1]):
+            return False
+    return True
+
+
+def pts_shoelace(pts):
+    """Signed area, positive = anticlockwise in (x right, y up); exact for integer vertices."""
+    s = 0.0
+    for k in range(len(pts) - 1):
+        s += pts[k][0] * pts[k + 1][1] - pts[k + 1][0] * pts[k][1]
+    return 0.5 * s
+
+
+def pts_cells(pts, H, W):
+    """Flat positions i*W+j of the cells whose centre (j+0.5, i+0.5) lies inside the ring (even-odd rule).
+    Requires integer, axis-parallel, in-bounds vertices.  For each row the ray from the centre towards -x
+    crosses exactly the vertical edges spanning that row at x <= j; an odd count means inside."""
+    cross = {}
+    for k in range(len(pts) - 1):
+        x0 = pts[k][0]
+        if x0 != pts[k + 1][0]:
+            continue
+        y0 = int(pts[k][1])
+        y1 = int(pts[k + 1][1])
+        if y0 > y1:
+            y0, y1 = y1, y0
+        xe = int(x0)
+        for i in range(y0, y1):
+            cross.setdefault(i, []).append(xe)
+    out = []
+    for i, xs in cross.items():
+        xs.sort()
+        # parity flips at every crossing; cells j in [xs[2m], xs[2m+1]) are inside
+        for m in range(0, len(xs) - 1, 2):
+            a, b = xs[m], xs[m + 1]
+            base = i * W
+            for j in range(a, b):
+                out.append(base + j)
+    return out
